@@ -1,7 +1,7 @@
 From Coq Require Import NArith PArith ZArith List Bool Lia ZifyBool ZifyN.
 Import ListNotations.
 Ltac Zify.zify_post_hook ::= Z.to_euclidean_division_equations.
-Open Scope N_scope.
+Local Open Scope N_scope.
 
 Definition is_mask (x:N) : bool :=
   let diff := N.land (N.lxor x (N.shiftr x 1)) 2147483647 in
